@@ -370,9 +370,30 @@ def run(ctx) -> int:
                 return {"config": cfg, "src": src, **d}
         return None
 
+    # fixed family, walked first: every sequence of two and three lines (and a sample of four) from a small alphabet of container
+    # lines with tabs after / between markers, against its column-expanded twin - so that what one container leaves behind in the
+    # line tables (bsCount, tShift, sCount) meets a LATER container that depends on tab columns, at every line offset
+    TAB_LINES = ["a", "> a", ">\ta", "> >\ta", ">\t\tcode", "- a", "-\ta", "  >\tb", "", ">", "1.\ta", "\ta", "> - \tb", ">\t> a", "    >\ta",
+                 "- >\ta", ">  \t- x"]
+    import itertools
+    fam = [c for n in (2, 3) for c in itertools.product(TAB_LINES, repeat=n)]
+    frng = rng_for("C17", seed, "tabfam")
+    fam += [tuple(frng.choice(TAB_LINES) for _ in range(4)) for _ in range(1500 if tier == "quick" else 30000)]
+    # all four-line sequences over the nine lines that matter most (two separate containers with a plain line between them need four)
+    fam += list(itertools.product(["", "a", "> - \tb", ">\t\tcode", ">  \t- x", "\ta", "-\ta", ">\ta", "> >\ta"], repeat=4))
+
     def probe_tab(r, count):
         nonlocal n_tab
         mds = [configs.make_md(c) for c in configs.STANDARD[:3]]
+        for combo in fam:
+            doc = "\n".join(combo) + "\n"
+            twin = "\n".join(expand_structural(l) for l in doc.split("\n"))
+            if doc == twin:
+                continue
+            n_tab += 1
+            d = tab_property(mds[0], doc, twin, True)
+            if d:
+                return {"config": configs.STANDARD[0], "loose": True, **d}
         for k in range(count):
             md = mds[k % len(mds)]
             loose = False
